@@ -1031,6 +1031,15 @@ theorem step_originInv (s : State) (op : Op) (h : OriginInv s) : OriginInv (step
         split
         · exact (dropCheckout_inv h r).1
         · exact h
+  | cancelOff r =>
+    simp only [step]
+    cases hh : s.held r with
+    | some p =>
+      simp only []
+      have hf := h.held r p hh
+      have h1 : OriginInv { s with held := upd s.held r none } := h.setHeld r none (fun p hp => by cases hp)
+      exact abortTask_inv (dropPooled_inv h1 p (hf.pooledOk.ext (Ext.of_eq rfl rfl))) _
+    | none => exact h
   | dialDone r o =>
     simp only [step]
     split
@@ -1265,6 +1274,17 @@ theorem step_coSame (s : State) (op : Op) (h : OriginInv s) : CoSame s.co (step 
         split
         · exact (dropCheckout_inv h r).2.2
         · exact CoSame.refl _
+  | cancelOff r =>
+    simp only [step]
+    cases hh : s.held r with
+    | some p =>
+      simp only []
+      have hf := h.held r p hh
+      have h1 : OriginInv { s with held := upd s.held r none } := h.setHeld r none (fun p hp => by cases hp)
+      have h2 := abortTask_coSame (dropPooled_inv h1 p (hf.pooledOk.ext (Ext.of_eq rfl rfl))) s.nextTask
+      rw [dropPooled_co] at h2
+      exact h2
+    | none => exact CoSame.refl _
   | dialDone r o =>
     simp only [step]
     split <;> exact CoSame.refl _
